@@ -1,7 +1,193 @@
-(* Props/C09.v -- property C09: one frame, truthful length, within the peer's maximum. Statements only.
-   (per-packet size/limit theorems are appended below as they are proved) *)
-From MV Require Import Base.Prelude Base.Res Base.VarInt Proofs.VarIntProofs.
-From MV Require Import Gen.Consts Spec.SpecConsts Proofs.ConstsProofs.
+(* Props/C09.v -- property C09: a successful encode appends exactly one frame with a truthful Remaining Length equal to the reported size; with a limit the frame never exceeds it, only diagnostics are dropped, otherwise over-size error; a failed encode appends nothing; no limit value panics.
+   Statements only: each theorem is closed by `exact <lemma>`; the statement text is the lemma's type as
+   printed by Coq (assembled by tools/mkprops.py from tools/props_spec/C09.json). *)
+From MV Require Import Base.Prelude.
+From MV Require Import Base.Res.
+From MV Require Import Base.VarInt.
+From MV Require Import Proofs.VarIntProofs.
+From MV Require Import Gen.Consts.
+From MV Require Import Spec.SpecConsts.
+From MV Require Import Proofs.ConstsProofs.
+From MV Require Import Base.Utf8.
+From MV Require Import Model.CodecV3.
+From MV Require Import Spec.SpecV3.
+From MV Require Import Proofs.CodecV3Lib.
+From MV Require Import Proofs.CodecV3Enc.
+From MV Require Import Proofs.CodecV3Dec.
+From MV Require Import Proofs.CodecV3RT.
+From MV Require Import Proofs.CodecV3Mal.
+From MV Require Import Proofs.CodecV3Stable.
+From MV Require Import Proofs.CodecV3Layout.
+From MV Require Import Proofs.CodecV3Frag.
+From MV Require Import Proofs.CodecV3Sem.
+From MV Require Import Proofs.CodecV3FragInd.
+From MV Require Import Model.CodecV5.
+From MV Require Import Model.Sniff.
+From MV Require Import Spec.SpecV5.
+From MV Require Import Proofs.CodecV5Fields.
+From MV Require Import Proofs.CodecV5Size.
+From MV Require Import Proofs.CodecV5Limit.
+From MV Require Import Proofs.CodecV5Props.
+From MV Require Import Proofs.CodecV5Round.
+From MV Require Import Proofs.CodecV5DecBase.
+From MV Require Import Proofs.CodecV5Stream.
+From MV Require Import Proofs.CodecV5Round2.
+From MV Require Import Proofs.CodecV5RT.
+From MV Require Import Proofs.CodecV5Order.
+From MV Require Import Proofs.CodecV5Layout.
+From MV Require Import Proofs.CodecV5Succ.
+From MV Require Import Proofs.CodecV5Total.
+From MV Require Import Proofs.SniffProofs.
+
+(* v5: one frame, Remaining Length = number of bytes that follow = encoded_size (two separate code paths in the Rust) *)
+Theorem C09_v5_size_agrees :
+  (forall (c : ecodec) (p : packet) (w : bytes) (c' : ecodec),
+          encodev c (EPacket p) = (w, Ok tt, c') ->
+          let q := effective c p in
+          let sz := encoded_size (max_size_of c) q in
+          exists body : bytes, is_frame (first_byte q) sz w body /\ len body = sz) /\
+         (forall (c : ecodec) (p : publish) (buf : option bytes) (w : bytes) (c' : ecodec),
+          encodev c (EPublish p buf) = (w, Ok tt, c') ->
+          let sz := publish_encoded_size p (max_size_of c) in
+          exists body : list N,
+            is_frame (publish_first_byte p) sz w (body ++ inline_payload buf) /\
+            len body + p_payload_size p = sz).
+Proof. exact CodecV5Size.v5_size_agrees. Qed.
+Print Assumptions C09_v5_size_agrees.
+
+Theorem C09_v5_size_agrees_packet :
+  forall (c : ecodec) (p : packet) (w : bytes) (c' : ecodec),
+         encodev c (EPacket p) = (w, Ok tt, c') ->
+         let q := effective c p in
+         let sz := encoded_size (max_size_of c) q in
+         c' = c /\
+         sz <= max_size_of c /\ (exists body : bytes, is_frame (first_byte q) sz w body /\ len body = sz).
+Proof. exact CodecV5Size.v5_size_agrees_packet. Qed.
+Print Assumptions C09_v5_size_agrees_packet.
+
+Theorem C09_v5_size_agrees_publish :
+  forall (c : ecodec) (p : publish) (buf : option bytes) (w : bytes) (c' : ecodec),
+         encodev c (EPublish p buf) = (w, Ok tt, c') ->
+         let sz := publish_encoded_size p (max_size_of c) in
+         sz <= max_size_of c /\
+         len (inline_payload buf) <= p_payload_size p /\
+         ec_encoding_payload c' = nonzero (p_payload_size p - len (inline_payload buf)) /\
+         ec_max_out_size c' = ec_max_out_size c /\
+         ec_max_out_frame c' = ec_max_out_frame c /\
+         ec_no_problem_info c' = ec_no_problem_info c /\
+         (exists body : list N,
+            is_frame (publish_first_byte p) sz w (body ++ inline_payload buf) /\
+            len body + p_payload_size p = sz).
+Proof. exact CodecV5Size.v5_size_agrees_publish. Qed.
+Print Assumptions C09_v5_size_agrees_publish.
+
+Theorem C09_v5_size_agrees_chunk :
+  forall (c : ecodec) (chunk w : bytes) (c' : ecodec),
+         encodev c (EPayloadChunk chunk) = (w, Ok tt, c') ->
+         exists remaining : N,
+           ec_encoding_payload c = Some remaining /\
+           w = chunk /\
+           len chunk mod TWO32 <= remaining /\
+           ec_encoding_payload c' = nonzero (remaining - len chunk mod TWO32).
+Proof. exact CodecV5Size.v5_size_agrees_chunk. Qed.
+Print Assumptions C09_v5_size_agrees_chunk.
+
+(* v5: with a peer Maximum Packet Size in force the frame never exceeds it *)
+Theorem C09_v5_within_limit :
+  forall (c0 : ecodec) (m : N),
+         m <> 0 ->
+         let c := set_max_outbound_size c0 m in
+         (forall (p : packet) (w : bytes) (c' : ecodec), encodev c (EPacket p) = (w, Ok tt, c') -> len w <= m) /\
+         (forall (p : publish) (buf : option bytes) (w : bytes) (c' : ecodec),
+          encodev c (EPublish p buf) = (w, Ok tt, c') ->
+          len w + (p_payload_size p - len (inline_payload buf)) <= m).
+Proof. exact CodecV5Size.v5_within_limit. Qed.
+Print Assumptions C09_v5_within_limit.
+
+(* v5: when shortened, only whole user properties (a prefix) and the reason string are left out; every other field decodes unchanged *)
+Theorem C09_v5_only_diagnostics_dropped :
+  forall (c : ecodec) (p : packet) (w : bytes) (c' : ecodec),
+         diag_packet_ok p = true ->
+         encodev c (EPacket p) = (w, Ok tt, c') ->
+         exists (body : bytes) (ups' : list uprop) (reason' : option bytes),
+           is_frame (first_byte p) (len body) w body /\
+           is_prefix ups' (diag_ups p) /\
+           (reason' = diag_reason p \/ reason' = None) /\
+           decode_packet (first_byte p) body = Ok (with_diag p ups' reason').
+Proof. exact CodecV5Round.v5_only_diagnostics_dropped. Qed.
+Print Assumptions C09_v5_only_diagnostics_dropped.
+
+(* v5: if that is not enough the encode fails with OverMaxPacketSize *)
+Theorem C09_v5_else_oversize :
+  forall (c : ecodec) (p : packet),
+         ec_encoding_payload c = None ->
+         let L := max_size_of c in
+         let m := packet_encoded_size (drop_diag (effective c p)) L in
+         L < m \/ ec_max_out_frame c <> 0 /\ ec_max_out_frame c < m + var_int_len m + 1 ->
+         encodev c (EPacket p) = ([], Err EE_OverMaxPacketSize, c).
+Proof. exact CodecV5Limit.v5_else_oversize. Qed.
+Print Assumptions C09_v5_else_oversize.
+
+(* v5: after a CONNECT that declines problem information acknowledgements carry neither *)
+Theorem C09_v5_no_problem_info :
+  forall (c : ecodec) (p : packet),
+         ec_no_problem_info c = true ->
+         effective c p = strip_packet p /\
+         no_diag (effective c p) /\ encodev c (EPacket p) = encodev c (EPacket (strip_packet p)).
+Proof. exact CodecV5Limit.v5_no_problem_info. Qed.
+Print Assumptions C09_v5_no_problem_info.
+
+(* a failed encode appends no bytes *)
+Theorem C09_v5_fail_appends_nothing :
+  forall (c : ecodec) (it : encoded) (w : bytes) (e : N) (c' : ecodec),
+         encodev c it = (w, Err e, c') -> w = [] /\ c' = c.
+Proof. exact CodecV5Size.v5_fail_appends_nothing. Qed.
+Print Assumptions C09_v5_fail_appends_nothing.
+
+(* v5: no limit value and no packet value makes the encoder panic or overflow *)
+Theorem C09_v5_no_limit_panics :
+  forall (c : ecodec) (it : encoded), wnp (fst (encodev c it)).
+Proof. exact CodecV5Size.v5_no_limit_panics. Qed.
+Print Assumptions C09_v5_no_limit_panics.
+
+(* v3: one frame, truthful Remaining Length = get_encoded_size / get_encoded_publish_size *)
+Theorem C09_v3_size_agrees :
+  forall (max_size : N) (ep : option N) (it : CodecV3.encoded) (dst dst' : bytes) (ep' : option N),
+         match it with
+         | CodecV3.EPacket _ => True
+         | CodecV3.EPublish p _ => CodecV3.p_payload_size p <= U32MAX
+         | EChunk _ => False
+         end ->
+         CodecV3.encodev max_size ep it dst = (dst', ep', Ok tt) ->
+         exists (vi : bytes) (body' : list N),
+           enc_vi (item_size it) = Some vi /\
+           dst' = dst ++ item_first_byte it :: vi ++ body' /\ len body' + owed ep' = item_size it.
+Proof. exact CodecV3Enc.v3_size_agrees. Qed.
+Print Assumptions C09_v3_size_agrees.
+
+Theorem C09_v3_fail_appends_nothing :
+  forall (max_size : N) (ep : option N) (it : CodecV3.encoded) (dst dst' : bytes) 
+           (ep' : option N) (e : N),
+         CodecV3.encodev max_size ep it dst = (dst', ep', Err e) -> dst' = dst /\ ep' = ep.
+Proof. exact CodecV3Enc.v3_fail_appends_nothing. Qed.
+Print Assumptions C09_v3_fail_appends_nothing.
+
+Theorem C09_v3_oversize_encode_refused :
+  forall (max_size : N) (p : CodecV3.packet) (dst : bytes),
+         VI_MAX < get_encoded_size p ->
+         CodecV3.encodev max_size None (CodecV3.EPacket p) dst = (dst, None, Err EE_OverMaxPacketSize).
+Proof. exact CodecV3Enc.v3_oversize_encode_refused. Qed.
+Print Assumptions C09_v3_oversize_encode_refused.
+
+(* v3: the encoder never panics *)
+Theorem C09_v3_encode_total :
+  forall (max_size : N) (ep : option N) (it : CodecV3.encoded) (dst : bytes),
+         match it with
+         | CodecV3.EPublish p _ => CodecV3.p_payload_size p <= U32MAX
+         | _ => True
+         end -> CodecV3Lib.np (snd (CodecV3.encodev max_size ep it dst)).
+Proof. exact CodecV3Enc.v3_encode_total. Qed.
+Print Assumptions C09_v3_encode_total.
 
 (* var_int_len_from_size inverts len + varint_len(len) for every length a var-int can carry *)
 Theorem C09_varlen_inverse : forall n, n <= VI_MAX -> var_int_len_from_size (n + var_int_len n) = Ok n.
@@ -30,3 +216,4 @@ Theorem C09_limit_scalars :
   gen_OUT_SIZE_THRESHOLD = 5 /\ gen_OUT_SIZE_REDUCTION = 5.
 Proof. repeat split; reflexivity. Qed.
 Print Assumptions C09_limit_scalars.
+
